@@ -45,6 +45,23 @@ type Step struct {
 	NoFault bool `json:"no_fault,omitempty"`
 }
 
+// Equivalencer is implemented by stores whose observation carries computed numbers: two renderings
+// are the same state if they differ only by rounding of such numbers (a value that falls on a
+// rounding boundary may be printed one unit apart by the model and by the observation).
+type Equivalencer interface {
+	Equivalent(obs, want string) bool
+}
+
+func same(st Store, obs, want string) bool {
+	if obs == want {
+		return true
+	}
+	if eq, ok := st.(Equivalencer); ok {
+		return eq.Equivalent(obs, want)
+	}
+	return false
+}
+
 // Reconciler is implemented by stores with steps whose result the statement leaves partly open
 // (inserting a key that is present: replaced, or kept under a derived key). After such a step has
 // succeeded the model adopts - narrowly - which of the permitted results the document shows.
@@ -201,7 +218,7 @@ func Run(st Store, h History) (*Violation, Stats, error) {
 	if err != nil {
 		return nil, stats, fmt.Errorf("initial model of %s: %w", h.Doc, err)
 	}
-	if obs, err := st.Observe(path); err != nil || obs != model.String() {
+	if obs, err := st.Observe(path); err != nil || !same(st, obs, model.String()) {
 		// the starting document's model is stated independently (generator ground truth): pdfcpu reads
 		// the untouched document differently from what was written
 		return &Violation{Class: "initial-state-mismatch", Step: -1, Detail: fmt.Sprintf("the starting document %s, before any operation, is not observed as what it is: %v\n%s", h.Doc, err, stateDiff(obs, model.String()))}, stats, nil
@@ -336,9 +353,9 @@ func Run(st Store, h History) (*Violation, Stats, error) {
 			switch {
 			case oerr != nil:
 				return mk("crash-state-unreadable", fmt.Sprintf("the document as it was after mutating event %d of the step cannot be read: %v", target, oerr)), stats, nil
-			case obs == before.String():
+			case same(st, obs, before.String()):
 				stats.CrashBefore++
-			case expectOK && obs == after.String():
+			case expectOK && same(st, obs, after.String()):
 				stats.CrashAfter++
 			default:
 				return mk("crash-state-neither", fmt.Sprintf("the document as it was after mutating event %d of the step is neither the state before nor after it:\nobserved: %s\nafter:    %s", target, obs, after.String())), stats, nil
@@ -373,7 +390,7 @@ func Run(st Store, h History) (*Violation, Stats, error) {
 		if oerr != nil {
 			return mk("unreadable-after-success", fmt.Sprintf("the step reported success but the document can no longer be read: %v", oerr)), stats, nil
 		}
-		if obs != model.String() {
+		if !same(st, obs, model.String()) {
 			return mk("state-mismatch", stateDiff(obs, model.String())), stats, nil
 		}
 		if err := st.Structural(path, model); err != nil {
